@@ -132,7 +132,7 @@ class CallMixin:
         if result is None and module.startswith("sidecar:") and getattr(self, "spec_fallback_module", None):
             # a specification may name the module-level tables of the file under verification (read from the real source)
             target = self.world.load(self.spec_fallback_module)
-            if name in target.consts:
+            if name in target.consts or name in target.functions:
                 return self.lookup_global(name, self.spec_fallback_module)
         if result is None:
             if module.startswith("sidecar:"):
